@@ -135,6 +135,7 @@ def _ws(ctx, f):
 
 
 def check(ctx):
+    write_acceptance(ctx)
     R = "C08/select-cancel-safety"
     S = Safety(ctx)
     n_sel = 0
@@ -292,3 +293,19 @@ def check(ctx):
                     writers.append((k.split("::")[3], n.split("::")[-1]))
     ctx.check(writers == [("send_packet", "write_all")], RW, "C08/single-write/who-may-write", "",
               reason="writes to self.stream: %s; expected only send_packet's write_all" % writers, detail="only send_packet writes to the stream")
+
+
+def write_acceptance(ctx):
+    """a frame arrives complete under every write-acceptance pattern only if the cipher layer below send_packet keeps the keystream
+    aligned with what the transport accepted: the commit-after-accept clauses of C05 are re-evaluated here (same rule code, C08 keys)"""
+    from .. import core
+    from . import c05
+    sub = core.Ctx(ctx.prop, ctx.prog, ctx.tier, ctx.config)
+    c05.check(sub)
+    seen = 0
+    for o in sub.obligations:
+        if o["key"].startswith("C05/commit-after-accept/"):
+            seen += 1
+            ctx.check(o["ok"], "C08/write-acceptance", "C08/write-acceptance/" + o["key"][len("C05/commit-after-accept/"):], o["site"],
+                      reason=o["detail"], detail=o["detail"])
+    ctx.floor("C08/write-acceptance", "commit-after-accept clauses evaluated on CipherStream::poll_write", seen, 4)
